@@ -1,0 +1,60 @@
+//! Verification hook (cargo feature `verif-hooks`, off by default): a batch server that
+//! runs many queries in one process so that an external explorer can walk large query
+//! spaces. It calls exactly what `main` calls after its flag handling: `exec_search`.
+//!
+//! Protocol: the environment variable FSELECT_VERIF_BATCH holds a nonce. Records are read
+//! from stdin, each terminated by 0x1e, the argument words separated by 0x1f. After each
+//! record `\n@@FSX:<nonce>:OUT:<status>@@\n` is written to stdout and
+//! `\n@@FSX:<nonce>:ERR@@\n` to stderr; status is the value `exec_search` returned, or
+//! `PANIC` when it unwound.
+#![cfg(feature = "verif-hooks")]
+
+use std::io::{Read, Write};
+use std::panic::{catch_unwind, AssertUnwindSafe};
+use std::process::ExitCode;
+
+use crate::config::Config;
+
+pub fn serve() -> ExitCode {
+    let nonce = std::env::var("FSELECT_VERIF_BATCH").unwrap_or_default();
+    let default_config = Config::default();
+    let mut config = match Config::new() {
+        Ok(cnf) => cnf,
+        Err(_) => default_config.clone(),
+    };
+
+    let mut stdin = std::io::stdin().lock();
+    let mut record: Vec<u8> = vec![];
+    let mut byte = [0u8; 1];
+
+    loop {
+        record.clear();
+        loop {
+            match stdin.read(&mut byte) {
+                Ok(1) if byte[0] == 0x1e => break,
+                Ok(1) => record.push(byte[0]),
+                _ => return ExitCode::SUCCESS,
+            }
+        }
+
+        let args: Vec<String> = record
+            .split(|b| *b == 0x1f)
+            .map(|w| String::from_utf8_lossy(w).to_string())
+            .collect();
+
+        let status = catch_unwind(AssertUnwindSafe(|| {
+            crate::exec_search(args, &mut config, &default_config, true)
+        }));
+
+        let status = match status {
+            Ok(code) => code.to_string(),
+            Err(_) => String::from("PANIC"),
+        };
+
+        let _ = std::io::stdout().flush();
+        let _ = write!(std::io::stdout(), "\n@@FSX:{}:OUT:{}@@\n", nonce, status);
+        let _ = std::io::stdout().flush();
+        let _ = write!(std::io::stderr(), "\n@@FSX:{}:ERR@@\n", nonce);
+        let _ = std::io::stderr().flush();
+    }
+}
